@@ -8,6 +8,11 @@ Proof step (Props/C17.v) + tie:
     real compiler processed the items (private-function numbering, __load__ line order), the .jmc files it
     opened (each at most once) and the diagnostic;
   * the Coq `flatten` must agree with the harness' flattening.
+Strengthening round 2: EDIT SEQUENCES - successive states of one project folder (files added / removed / renamed / moved between
+folders / rewritten, import lines changed, a wildcard's folder appearing and disappearing), every state compiled in turn in ONE
+process on the same paths (c17_run.py {"seq": ...}; untouched files keep inode and mtime).  Every state is a case like any other:
+in-process result == flattened single file of the project AS IT IS NOW, == model prediction, and (control) == the result of a fresh
+process when the OS lists the folders in the same order.  A failing state is replayed with the shortest history that reproduces it.
 """
 from __future__ import annotations
 
@@ -346,6 +351,15 @@ def gen_adversarial(rng):
         proj({m: [("import", "lib/f"), L(1000)],
               f"{P}/lib/f.jmc": [D(1001), ("wild", "../sub/*"), L(1002)],
               f"{P}/sub/c.jmc": [L(1003), D(1004)]}, cwd, target, tag="wild-dotdot")
+    # strengthening round 2: the SAME import string in two files of different folders names different folders / files
+    for cwd, target in MAIN_SPELLINGS[:3]:
+        proj({m: [L(1000), ("wild", "x/*"), ("import", "lib/f"), D(1001), ("import", "a")],
+              f"{P}/lib/f.jmc": [D(1002), ("wild", "x/*"), ("import", "a"), L(1003)],
+              f"{P}/x/p.jmc": [L(1004), D(1005)], f"{P}/lib/x/q.jmc": [D(1006, "class"), L(1007, "say")], f"{P}/lib/x/deep/r.jmc": [L(1008)],
+              f"{P}/a.jmc": [D(1009)], f"{P}/lib/a.jmc": [L(1010), D(1011, "plain")]}, cwd, target, tag="same-string-two-folders")
+        proj({m: [("import", "lib/f"), L(1000), ("wild", "./x/*"), ("wild", "x/*")],
+              f"{P}/lib/f.jmc": [("wild", "./x/*"), D(1002), ("wild", "../x/*")],
+              f"{P}/x/p.jmc": [L(1004), D(1005)], f"{P}/lib/x/q.jmc": [D(1006, "class"), L(1007, "say")]}, cwd, target, tag="same-string-two-folders")
     # suffix completion
     proj({m: [("import", "a.b"), L(1000), ("import", "a.b.jmc"), ("import", "x.jmc")],
           f"{P}/a.b.jmc": [D(1001), L(1002)], f"{P}/x.jmc.jmc": [D(1003)], f"{P}/x.jmc": [D(1004), ("import", "x.jmc.jmc")]},
@@ -481,9 +495,11 @@ def edit_project(rng, pr: Project, kind: str) -> Project | None:
             return None
         for f in gone:
             del files[f]
-        dirs = [x for x in dirs if not (x == d or x.startswith(d + "/"))]
+        dirs = [x for x in dirs if not (x == d or x.startswith(d + "/")) or pr.cwd == x or pr.cwd.startswith(x + "/")]
     else:
         raise ValueError(kind)
+    if pr.cwd not in dirs and not any(f.startswith(pr.cwd + "/") for f in files):
+        dirs.append(pr.cwd)             # the working directory is part of the input: it stays
     return Project(files, dirs, pr.cwd, pr.target, pr.tag)
 
 
@@ -799,6 +815,8 @@ def main(tier: str) -> int:
         "is not modelled (hypothesis of C17_outputs_equal); it is exercised by the metamorphic comparison of real file maps only",
         "harness/c17.py spec_flatten: independent Python implementation of the specification, cross-checked against Coq `flatten`",
         "directory listing order of `import \"dir/*\"` is taken from the real file system (parameter `dirs` of the model)",
+        "the model is a function of the source tree alone (no state between compiles): that the CODE keeps nothing between compiles of an edited "
+        "folder is checked by the edit sequences (c17_run.py sync_tree edits one folder in place, every state compiled in one process)",
     ]
     ck.proof(extra_targets=["Run/C17.vo"])
     rng = ck.rng
